@@ -7,18 +7,18 @@ C_ = "src/state/coins.rs"
 T = "src/state/txset.rs"
 SM = "src/smtmapping.rs"
 
-def sel_proof(pred):
+def sel_proof(pred, named=None):
     return """proof {
         let ks = choose|ks: Seq<TxHash>| is_enum(state.transactions@, ks) && __c0@.len() == ks.len() && (forall|i: int| 0 <= i < ks.len() ==> *(#[trigger] __c0@[i]) == state.transactions@[ks[i]]);
         let items = Seq::new(ks.len(), |i: int| state.transactions@[ks[i]]);
         assert(__c1@ =~= items);
         let opts = choose|opts: Seq<Option<Transaction>>| #[trigger] filter_map_decided(__cl2, __c1@, __c2@, opts);
-        let p = |tx: Transaction| %s(*state, tx);
-        assert forall|i: int| 0 <= i < items.len() implies #[trigger] opts[i] == (if p(items[i]) { Some(items[i]) } else { None::<Transaction> }) by {
+        let p = %s;
+        assert forall|i: int| 0 <= i < items.len() implies #[trigger] opts[i] == (if p(items[i]) { Some(items[i]) } else { None::<Transaction> }) by { assert(p(items[i]) == %s(*state, items[i]));
             assert(call_ensures(__cl2, (__c1@[i],), opts[i]));
         }
         lemma_flatten_filter(items, opts, p);
-    }""" % pred
+    }""" % ((named or "|tx: Transaction| %s(*state, tx)" % pred), pred)
 
 UNIT = Unit(
     name="mint", uses="group_core_axioms",
@@ -41,8 +41,8 @@ UNIT = Unit(
            ensures=[C("canonical", "res == spec_req_key(data@)", "C15", "C01")]),
         Fn(M, "get_swap_transactions", home="C15", implicit_props=("C09", "C15"),
            requires=[C("wf", "state.coins.wf()")],
-           ensures=[C("selected", "selected(state.transactions@, res@, |tx: Transaction| is_swap_req(*state, tx))", "C15", "C01")],
-           rewrites=[("ANF", "collect", 0, 4, {2: sel_proof("is_swap_req")})],
+           ensures=[C("selected", "selected(state.transactions@, res@, swap_pred(*state))", "C15", "C01")],
+           rewrites=[("ANF", "collect", 0, 4, {2: sel_proof("is_swap_req", "swap_pred(*state)")})],
            closures=[Closure(0, "tx: Transaction", "(r: Option<Transaction>)", ensures=[C("pred", "r == (if is_swap_req(*state, tx) { Some(tx) } else { None::<Transaction> })", "C15")])]),
         Fn(M, "get_deposit_transactions", home="C15", implicit_props=("C09", "C15"),
            requires=[C("wf", "state.coins.wf()")],
@@ -95,7 +95,7 @@ UNIT = Unit(
                         let p0 = old(state).pools@[*pool]; let l = sat128(p0.lefts + tl); let r = sat128(p0.rights + tr);
                         swaps_settled(old(state).coins@.coins, final(state).coins@.coins, old(swaps)@, old(swaps)@.len() as int, *pool, swap_out(tr, r, l), swap_out(tl, l, r), tl, tr, old(state).height) })""", "C15", "C01"),
                     C("frame", "pool_phase_frame(*old(state), *final(state)) && final(state).fee_pool == old(state).fee_pool", "C15", "C17"),
-                    C("inv", "final(state).coins.wf() && (spec_tip906(*old(state)) ==> counts_ok(final(state).coins@))", "C20")],
+                    C("inv", "final(state).coins.wf() && (spec_tip906(*old(state)) ==> counts_ok(final(state).coins@)) && origin_ok(final(state).coins@.coins) && (!spec_tip906(*old(state)) ==> final(state).coins@.counts == old(state).coins@.counts)", "C20")],
            rewrites=[("R3", 0), ("ROOT", "iter", 0, "vec_iter"), ("ANF", "fold", 0, 2, {}, "L"), ("ROOT", "iter", 0, "vec_iter"), ("ANF", "fold", 1, 2, {}, "R")],
            injects=[Inject("entry", "let ghost swaps0 = swaps@; let ghost st0 = *state; let ghost c0 = state.coins@.coins; let ghost n0 = swaps@.len() as int;"),
                     Inject(("after_let", "total_lefts"), """proof { let accs = choose|accs: Seq<u128>| #[trigger] fold_decided(__clL1, __cL0@, 0u128, accs) && total_lefts == accs[__cL0@.len() as int];
@@ -115,7 +115,7 @@ UNIT = Unit(
                    C("len", "swaps@.len() == n0 && __n == n0 && n0 == swaps0.len() && swaps_pre(swaps0, *pool) && (forall|j: int| __i <= j < n0 ==> #[trigger] swaps@[j] == swaps0[j])", "C15"),
                    C("totals", "total_lefts as int == tl && total_rights as int == tr && tl == side_total(swaps0, pool.left, n0) && tr == side_total(swaps0, pool.right, n0) && lw == left_withdrawn as int && rw == right_withdrawn as int", "C15"),
                    C("settled", "swaps_settled(c0, state.coins@.coins, swaps0, __i as int, *pool, lw, rw, tl, tr, st0.height)", "C15", "C01"),
-                   C("inv", "state.coins.wf() && (spec_tip906(st0) ==> counts_ok(state.coins@)) && origin_ok(state.coins@.coins)", "C20"),
+                   C("inv", "state.coins.wf() && (spec_tip906(st0) ==> counts_ok(state.coins@)) && origin_ok(state.coins@.coins) && (!spec_tip906(st0) ==> state.coins@.counts == st0.coins@.counts)", "C20"),
                    C("frame", "pool_phase_frame(st0, *state) && state.fee_pool == st0.fee_pool && state.pools == st0.pools && state.height == st0.height && state.network == st0.network", "C15"),
                ])],
            closures=[Closure(0, "tx: &Transaction", "(r: CoinValue)", requires=[C("has0", "tx.outputs@.len() > 0")], ensures=[C("left", "r.0 as int == req_value(*tx, pool.left)", "C15")]),
@@ -132,7 +132,42 @@ UNIT = Unit(
         Fn(M, "process_deposits", mode="assume", **mm_phase("deposits")),
         Fn(M, "process_withdrawals", mode="assume", **mm_phase("withdrawals")),
         Fn(M, "process_pegging", mode="assume", **mm_phase("pegging")),
-        Fn(M, "process_swaps", mode="assume", **mm_phase("swaps")),
+        Fn(M, "process_swaps", home="C15", implicit_props=("C09", "C15", "C16", "C01"), **mm_process_swaps(),
+           rewrites=[("MUTPARAM", "state", "st"), ("R3", 0)],
+           injects=[Inject(("after_let", "swap_reqs"), """let ghost s0 = state; let ghost c0 = state.coins@.coins; let ghost reqs = swap_reqs@;
+                        proof { lemma_selected_swaps(s0, reqs); }"""),
+                    Inject(("after_let", "pools"), """proof { assert(swap_reqs@ == reqs);
+                        assert(done_set(pools@, 0) =~= ISet::<PoolKey>::empty());
+                        assert(swaps_done(s0.pools@, c0, s0.height, reqs, done_set(pools@, 0), st.pools@, st.coins@.coins)); }"""),
+                    Inject("before_tail", """proof { let n = pools@.len() as int; let fin = ISet::new(|k: PoolKey| mentions(reqs, k));
+                        assert(done_set(pools@, n) =~= fin) by {
+                            assert forall|k2: PoolKey| done_set(pools@, n).contains(k2) <==> fin.contains(k2) by {
+                                if done_set(pools@, n).contains(k2) { let j = choose|j: int| 0 <= j < n && pools@[j] == k2; assert(pools@.contains(k2)); }
+                                if mentions(reqs, k2) { assert(pools@.contains(k2)); let j = choose|j: int| 0 <= j < pools@.len() && pools@[j] == k2; } } }
+                        assert(selected(s0.transactions@, reqs, swap_pred(s0)));
+                        assert(pools_ok(st.pools@)) by { assert forall|k2: PoolKey| #[trigger] st.pools@.contains_key(k2) implies
+                            ((pool_live(st.pools@[k2]) && st.pools@[k2].liqs > 0) || (st.pools@[k2].lefts == 0 && st.pools@[k2].rights == 0 && st.pools@[k2].liqs == 0)) by {
+                                assert(s0.pools@.contains_key(k2));
+                                if fin.contains(k2) { lemma_pool_reqs_pre(s0.pools@, c0, reqs, k2); } } }
+                        assert(builtins_live(st)); assert(state_inv(st)); }""")],
+           loops=[Loop(0, binder="it",
+               body_entry="""let ghost pb = st.pools@; let ghost cb = st.coins@.coins; let ghost i = it.index@ as int; let ghost k = *pool;
+                   proof { assert(k == pools@[i]); assert(pools@.contains(k)); assert(mentions(reqs, k));
+                       assert(!done_set(pools@, i).contains(k)) by { if done_set(pools@, i).contains(k) { let j = choose|j: int| 0 <= j < i && pools@[j] == k; assert(pools@[j] == pools@[i]); } }
+                       lemma_pool_reqs_pre(s0.pools@, c0, reqs, k); assert(pb[k] == s0.pools@[k]); }""",
+               body_exit="""proof { lemma_swaps_done_step(s0.pools@, c0, s0.height, reqs, done_set(pools@, i), pb, cb, k, st.pools@, st.coins@.coins);
+                       assert(done_set(pools@, i + 1) =~= done_set(pools@, i).insert(k)) by {
+                           assert forall|k2: PoolKey| done_set(pools@, i + 1).contains(k2) <==> done_set(pools@, i).insert(k).contains(k2) by {
+                               if done_set(pools@, i + 1).contains(k2) { let j = choose|j: int| 0 <= j < i + 1 && pools@[j] == k2; if j < i { assert(done_set(pools@, i).contains(k2)); } }
+                               if done_set(pools@, i).contains(k2) { let j = choose|j: int| 0 <= j < i && pools@[j] == k2; assert(0 <= j < i + 1 && pools@[j] == k2); }
+                               if k2 == k { assert(0 <= i < i + 1 && pools@[i] == k2); } } } }""",
+               invariants=[
+                   C("ctx", """refs_of(it.seq(), pools@) && swap_reqs@ == reqs && swap_reqs_ok(s0.pools@, c0, reqs) && c0 == s0.coins@.coins && pools@.no_duplicates()
+                         && (forall|k: PoolKey| #[trigger] pools@.contains(k) <==> mentions(reqs, k)) && state_inv(s0) && builtins_live(s0) && pools_ok(s0.pools@)""", "C15"),
+                   C("frame", "pool_phase_frame(s0, st) && st.fee_pool == s0.fee_pool && st.height == s0.height && st.network == s0.network", "C15", "C17"),
+                   C("inv", "st.coins.wf() && (spec_tip906(s0) ==> counts_ok(st.coins@)) && origin_ok(st.coins@.coins) && (!spec_tip906(s0) ==> st.coins@.counts == s0.coins@.counts)", "C20"),
+                   C("done", "swaps_done(s0.pools@, c0, s0.height, reqs, done_set(pools@, it.index@ as int), st.pools@, st.coins@.coins)", "C15", "C01"),
+               ])]),
         Fn(SM, "val_iter", impl="SmtMapping", mode="assume", wrap=SMT_WRAP, sig_subst=[("impl Iterator<Item = V> + '_", "Vec<V>")], **smt_val_iter()),
         Fn(M, "preseal_melmint", home="C16", implicit_props=("C09", "C16", "C15"), **mm_preseal(),
            uses="group_core_axioms, axiom_builtin_order, axiom_bytes_lt, axiom_denom_bytes_inj",
